@@ -14,7 +14,7 @@ def _loader(prog):
     """the function that turns a path into a buffer: opens the file and returns a pointer"""
     c = [fn for fn, f in prog.lib_functions().items()
          if any(x.get("kind") == "CallExpr" and callee_name(x) == "open" for x in walk(prog.body(f))) and
-         qtype(f).split("(")[0].strip().endswith("*")]
+         (qtype(f).split("(")[0].strip().endswith("*") or any(qtype(p).count("*") >= 2 for p in prog.params(f)))]
     if len(c) != 1:
         raise AnalysisBroken("file loader not identified: %s" % c)
     return c[0]
@@ -67,8 +67,54 @@ def _eval_with(prog, e, env, asg, depth=0):
         return 4096
     if depth < 4 and txt in asg and len(asg[txt]) == 1:
         return _eval_with(prog, asg[txt][0], env, asg, depth + 1)
+    if depth < 4 and txt in asg and len(asg[txt]) > 1:
+        # several assignments: a constant initialiser that is overwritten by one computed value before it is used
+        # (`size_t n = 0; ... n = st.st_size;`) evaluates to the computed value
+        nonconst = [r for r in asg[txt] if ConstEval(prog).try_eval(strip(r, casts=True)) is None]
+        if len(nonconst) == 1:
+            return _eval_with(prog, nonconst[0], env, asg, depth + 1)
     if k == "MemberExpr" and e.get("name") == "st_size":
         return env.get("$size")
+    return None
+
+
+def _loader_call(prog, f, loader):
+    for m in walk(prog.body(f)):
+        if m.get("kind") == "CallExpr" and callee_name(m) == loader:
+            return m
+    return None
+
+
+def _text_var(prog, f, loader):
+    """the local that holds the loaded text: initialised from the loader's pointer result, or handed to it by address (char **)"""
+    lf = prog.fn(loader)
+    ptr_result = qtype(lf).split("(")[0].strip().endswith("*")
+    for m in walk(prog.body(f)):
+        if ptr_result and m.get("kind") == "VarDecl" and kids(m) and strip(kids(m)[-1], casts=True).get("kind") == "CallExpr" and \
+                callee_name(strip(kids(m)[-1], casts=True)) == loader:
+            return m["name"]
+    c = _loader_call(prog, f, loader)
+    if c is not None and not ptr_result:
+        for p, a in zip(prog.params(lf), call_args(c)):
+            a0 = strip(a, casts=True)
+            if qtype(p).count("*") >= 2 and a0.get("kind") == "UnaryOperator" and a0.get("opcode") == "&":
+                return ref_name(strip(kids(a0)[0], casts=True))
+    return None
+
+
+def _length_var(prog, f, loader):
+    """the local that holds the mapped length: handed to the loader by address (size_t *), or initialised from its integer result"""
+    lf = prog.fn(loader)
+    c = _loader_call(prog, f, loader)
+    if c is None:
+        return None
+    for p, a in zip(prog.params(lf), call_args(c)):
+        a0 = strip(a, casts=True)
+        if qtype(p).replace(" ", "") in ("size_t*", "unsignedlong*") and a0.get("kind") == "UnaryOperator" and a0.get("opcode") == "&":
+            return ref_name(strip(kids(a0)[0], casts=True))
+    for m in walk(prog.body(f)):
+        if m.get("kind") == "VarDecl" and kids(m) and strip(kids(m)[-1], casts=True) is c:
+            return m["name"]
     return None
 
 
@@ -163,11 +209,7 @@ def delegation_rule(chk, prog, roles):
         chk.require(not cond_on_args, "DELEG", key + "/unconditional", loc_str(call),
                     "the call of the string entry point does not depend on the wrapper's own arguments", "nested in %s on an argument" % [x.get("kind") for x in cond_on_args])
         # same instance, the loaded text, and (for counting) the caller's chunk size and result pointer
-        txtvar = None
-        for m in walk(prog.body(f)):
-            if m.get("kind") == "VarDecl" and kids(m) and strip(kids(m)[-1], casts=True).get("kind") == "CallExpr" and \
-                    callee_name(strip(kids(m)[-1], casts=True)) == loader:
-                txtvar = m["name"]
+        txtvar = _text_var(prog, f, loader)
         passed = [amap.get(expr_str(strip(x, casts=True)), expr_str(strip(x, casts=True))) for x in a]
         expect = [wps[0], txtvar] + [p for p in wps[2:]]
         chk.require(passed == expect, "DELEG", key + "/args", loc_str(call),
@@ -215,7 +257,17 @@ def unmap_length_rule(chk, prog, loader, maps, asg, pairs):
     mlen = call_args(maps[0])[1]
     sizes = (0, 1, 4095, 4096, 4097, 1 << 20)
 
+    def norm_text(e, depth=0):
+        """expression text with single-assignment names replaced by what they were assigned"""
+        e = strip(e, casts=True)
+        t = expr_str(e)
+        if depth < 4 and t in asg and len(asg[t]) == 1:
+            return norm_text(asg[t][0], depth + 1)
+        return t
+
     def same_length(e, env_extra=None):
+        if norm_text(e) == norm_text(mlen):
+            return True, None       # literally the same quantity
         for size in sizes:
             env = {"$size": size}
             a = _eval_with(prog, mlen, env, asg)
@@ -235,33 +287,33 @@ def unmap_length_rule(chk, prog, loader, maps, asg, pairs):
             else:
                 chk.require(ok, "UNMAP", "UNMAP/%s@%s" % (loader, loc_str(c)), loc_str(c),
                             "the loader unmaps exactly the length it mapped", "for a file of %s bytes: mapped %s, unmapped %s" % (w or (0, 0, 0)))
-    # the length reported to the callers
+    # the length reported to the callers: stored through the size_t * out-parameter, or returned
     stores = []
     for m in walk(prog.body(lf)):
         if m.get("kind") == "BinaryOperator" and m.get("opcode") == "=":
             l = strip(kids(m)[0], casts=True)
             if l.get("kind") == "UnaryOperator" and l.get("opcode") == "*" and outs and ref_name(strip(kids(l)[0], casts=True)) == outs[0]["name"]:
                 stores.append(m)
+    if not outs:
+        for m in walk(prog.body(lf)):
+            if m.get("kind") == "ReturnStmt" and kids(m) and ConstEval(prog).try_eval(strip(kids(m)[0], casts=True)) is None:
+                stores.append({"kind": "ret", "inner": [None, kids(m)[0]], "_node": m})
     for m in stores:
         n += 1
-        ok, w = same_length(kids(m)[1])
+        if m.get("kind") == "ret":
+            rhs, m = m["inner"][1], m["_node"]
+        else:
+            rhs = kids(m)[1]
+        ok, w = same_length(rhs)
         if ok is None:
-            chk.broken("UNMAP", "UNMAP/reported@%s" % loc_str(m), loc_str(m), "the reported length can be compared with the mapped length", expr_str(kids(m)[1]))
+            chk.broken("UNMAP", "UNMAP/reported@%s" % loc_str(m), loc_str(m), "the reported length can be compared with the mapped length", expr_str(rhs))
         else:
             chk.require(ok, "UNMAP", "UNMAP/reported@%s" % loc_str(m), loc_str(m),
                         "the length the loader reports to its callers is the mapped length", "for a file of %s bytes: mapped %s, reported %s" % (w or (0, 0, 0)))
     # the wrappers hand exactly that variable to munmap, for the pointer the loader returned
     for fn, _ in pairs:
         f = prog.fn(fn)
-        lv = pv = None
-        for m in walk(prog.body(f)):
-            if m.get("kind") == "VarDecl" and kids(m) and strip(kids(m)[-1], casts=True).get("kind") == "CallExpr" and \
-                    callee_name(strip(kids(m)[-1], casts=True)) == loader:
-                pv = m["name"]
-                for a in call_args(strip(kids(m)[-1], casts=True)):
-                    a0 = strip(a, casts=True)
-                    if a0.get("kind") == "UnaryOperator" and a0.get("opcode") == "&":
-                        lv = ref_name(strip(kids(a0)[0]))
+        pv, lv = _text_var(prog, f, loader), _length_var(prog, f, loader)
         for c in walk(prog.body(f)):
             if c.get("kind") == "CallExpr" and callee_name(c) == "munmap":
                 n += 1
